@@ -420,6 +420,173 @@ def from_json(d):
                       for r in d["runs"]])
 
 
+
+# ------------------------------------------------------------------ housekeeping: ignore-rejects + refresh (Model/Housekeeping.v)
+
+COQ_DEFS_H = r"""
+Record hobs := mkHO { ho_skip : list (imgid * bool); ho_flag : list (imgid * bool) }.
+Record hcase := mkHC { hc_pre : list imgid; hc_ops : list hop; hc_obs : list hobs }.
+Definition hskip_agrees (h : hworld) (o : list (imgid * bool)) : bool :=
+  forallb (fun p => Bool.eqb (refresh_skips_full h (fst p)) (snd p)) o.
+Definition hflag_agrees (h : hworld) (o : list (imgid * bool)) : bool :=
+  forallb (fun p => Bool.eqb (h_flag h (fst p)) (snd p)) o.
+(* 0 = agree; 10*i + r: step i (from 1): 1 skip.flag files in the store, 2 refresh skip decisions *)
+Fixpoint chk_hops (i : nat) (ops : list hop) (os : list hobs) (h : hworld) : nat :=
+  match ops, os with
+  | o :: ops', b :: os' =>
+      let h' := hstep true h o in
+      if negb (hflag_agrees h' (ho_flag b)) then (10 * i + 1)%nat
+      else if negb (hskip_agrees h' (ho_skip b)) then (10 * i + 2)%nat
+      else chk_hops (S i) ops' os' h'
+  | [], [] => 0%nat
+  | _, _ => 9%nat
+  end.
+Definition chk_house (c : hcase) : nat :=
+  chk_hops 1 (hc_ops c) (hc_obs c) (mkH clean_world (fun u => existsb (N.eqb u) (hc_pre c))).
+"""
+
+HFILES = [1, 2, 0]          # thumb.jpg, index_rel.wtml, index.wtml
+
+
+def run_house(base, approved, rejected, others, preflag, ops):
+    """approved / rejected / others: image ids in approved/, in rejects/, known to the source only;
+    preflag: ids whose store folder holds skip.flag beforehand; ops: ("publish", (kind, k)) | ("ignore",).
+    The real PipelineManager.publish / ignore_rejects and refresh_impl; os.listdir sorted.
+    Returns per-step dict(skip, flag, store)."""
+    import argparse
+    import yaml
+    from toasty.pipeline import PipelineManager
+    from toasty.pipeline.local_io import LocalPipelineIo
+    from toasty.pipeline import cli as pcli
+    ensure_stub()
+    if os.path.exists(base):
+        shutil.rmtree(base)
+    store = os.path.join(base, "store")
+    work = os.path.join(base, "work")
+    os.makedirs(store)
+    for d in ("approved", "rejects"):
+        os.makedirs(os.path.join(work, d))
+    LocalPipelineIo(store).save_config(os.path.join(work, "toasty-store-config.yaml"))
+    everyone = sorted(set(approved) | set(rejected) | set(others))
+    with open(os.path.join(work, "toasty-pipeline-config.yaml"), "wt") as f:
+        yaml.dump({"source_type": "_verif_stub", "verif_stub": {"ids": [uid_str(u) for u in everyone]}}, f)
+    for u in approved:
+        d = os.path.join(work, "approved", uid_str(u))
+        os.makedirs(d)
+        for n in HFILES:
+            with open(os.path.join(d, NAMES[n]), "wb") as f:
+                f.write(content(u, n))
+    for u in rejected:
+        os.makedirs(os.path.join(work, "rejects", uid_str(u)))
+    for u in preflag:
+        os.makedirs(os.path.join(store, uid_str(u)), exist_ok=True)
+        with open(os.path.join(store, uid_str(u), "skip.flag"), "wb") as f:
+            f.write(b"{}")
+    real_listdir = os.listdir
+    out = []
+    for op in ops:
+        sink = io.StringIO()
+        mgr = PipelineManager(work)
+        os.listdir = lambda p: sorted(real_listdir(p))
+        try:
+            with contextlib.redirect_stdout(sink):
+                if op[0] == "publish":
+                    mgr._pipeio = make_fault_io(store, op[1], [])
+                    try:
+                        mgr.publish()
+                    except Boom:
+                        pass
+                else:
+                    mgr.ignore_rejects()
+        finally:
+            os.listdir = real_listdir
+        cand = os.path.join(work, "candidates")
+        shutil.rmtree(cand, ignore_errors=True)
+        with contextlib.redirect_stdout(sink):
+            pcli.refresh_impl(argparse.Namespace(workdir=work))
+        skip = {u: not os.path.exists(os.path.join(cand, uid_str(u))) for u in everyone}
+        flag = {u: os.path.exists(os.path.join(store, uid_str(u), "skip.flag")) for u in everyone}
+        st = {u: {n: os.path.exists(os.path.join(store, uid_str(u), NAMES[n])) for n in HFILES} for u in approved}
+        out.append(dict(skip=skip, flag=flag, store=st))
+    return out
+
+
+def g_hcase(c, obs):
+    still = sorted(c["approved"])
+    ops = []
+    for op in c["ops"]:
+        if op[0] == "publish":
+            lst = g_list([f"({g_N(u)}, {g_list([g_N(n) for n in sorted(HFILES, key=lambda n: NAMES[n])])})" for u in still])
+            ops.append(f"(HPublish (mkRun {g_list([g_N(u) for u in sorted(still, key=uid_str)])} {lst} {g_fault(tuple(op[1]))}))")
+        else:
+            ops.append(f"(HIgnore {g_list([g_N(u) for u in sorted(c['rejected'], key=uid_str)])})")
+    os_ = [f"(mkHO {g_list([f'({g_N(u)}, {g_bool(b)})' for u, b in o['skip'].items()])} "
+           f"{g_list([f'({g_N(u)}, {g_bool(b)})' for u, b in o['flag'].items()])})" for o in obs]
+    return f"(mkHC {g_list([g_N(u) for u in c['preflag']])} {g_list(ops)} {g_list(os_)})"
+
+
+def house_property_fails(c, obs):
+    why = []
+    for i, o in enumerate(obs):
+        for u in c["approved"]:
+            s = o["store"][u]
+            if o["skip"][u] and u not in c["preflag"] and not all(s[n] for n in HFILES if n != 0):
+                why.append(f"step {i + 1} ({c['ops'][i][0]}): refresh skips approved image {u} whose files are missing in the store "
+                           f"{ {NAMES[n]: v for n, v in s.items()} } (skip.flag present: {o['flag'][u]})")
+    return why
+
+
+def gen_house(rng, tier):
+    cases = [dict(approved=[1], rejected=[], others=[], preflag=[], ops=[("publish", ("before", 2)), ("ignore",), ("publish", ("none", 0))]),
+             dict(approved=[1, 2], rejected=[3], others=[4], preflag=[4], ops=[("ignore",), ("publish", ("after", 4)), ("ignore",), ("publish", ("none", 0))])]
+    for _ in range(40 if tier == "quick" else 200):
+        ids = list(range(1, 7))
+        rng.shuffle(ids)
+        na, nr = rng.randint(1, 3), rng.randint(0, 2)
+        approved, rejected, others = ids[:na], ids[na:na + nr], ids[na + nr:na + nr + rng.randint(0, 1)]
+        preflag = [u for u in rejected + others if rng.random() < 0.3]
+        ops = []
+        for _k in range(rng.randint(1, 4)):
+            if rng.random() < 0.45:
+                ops.append(("ignore",))
+            else:
+                kind = rng.choice(["none", "before", "after", "before", "after"])
+                ops.append(("publish", (kind, 0 if kind == "none" else rng.randint(1, 3 * na))))
+        cases.append(dict(approved=approved, rejected=rejected, others=others, preflag=preflag, ops=ops))
+    return cases
+
+
+def run_house_part(ctx, V, wd):
+    rng = common.rng_for(ctx["seed"], "C18-house")
+    cases = gen_house(rng, ctx["tier"])
+    rp = ctx.get("replay")
+    if rp and isinstance(rp.get("case"), dict) and "approved" in rp["case"]:
+        d = rp["case"]
+        cases = [dict(approved=d["approved"], rejected=d["rejected"], others=d["others"], preflag=d["preflag"],
+                      ops=[(o[0], tuple(o[1])) if len(o) > 1 else (o[0],) for o in d["ops"]])] + cases[:10]
+    base = str(wd / "house")
+    observed = [run_house(base, c["approved"], c["rejected"], c["others"], c["preflag"], c["ops"]) for c in cases]
+    shutil.rmtree(base, ignore_errors=True)
+    terms = [g_hcase(c, o) for c, o in zip(cases, observed)]
+    bad = common.coq_eval_sharded(COQ_DEFS + COQ_DEFS_H, terms, "chk_house", ["Model.Publish", "Model.Housekeeping"],
+                                  shard=350, jobs=4, name="c18h")
+    n_fail = 0
+    for i, (c, o) in enumerate(zip(cases, observed)):
+        why = house_property_fails(c, o)
+        if i in bad or why:
+            n_fail += 1
+            code = bad.get(i, 0)
+            rel = (f"Housekeeping.v ~ pipeline: step {code // 10}, " + {1: "skip.flag files in the store after the step (ignore_rejects)",
+                                                                         2: "refresh_skips_full ~ refresh_impl skip decision"}.get(code % 10, str(code))
+                   if i in bad else "C18 predicate on the implementation (refresh after housekeeping)")
+            V.disagreement(rel, dict(c, ops=[list(o_) for o_ in c["ops"]]),
+                           "ignore-rejects flags the images in rejects/ only; refresh skips a non-flagged image only when index.wtml is in the store",
+                           dict(why=why[:4], observed=[dict(skip=x["skip"], flag=x["flag"]) for x in o][:4]), bool(why))
+    return dict(housekeeping_histories=len(cases), housekeeping_steps=sum(len(c["ops"]) for c in cases),
+                housekeeping_with_ignore=sum(1 for c in cases if any(o[0] == "ignore" for o in c["ops"])),
+                housekeeping_failures=n_fail)
+
+
 def run(ctx, V):
     rng = common.rng_for(ctx["seed"], "C18")
     tier = ctx["tier"]
@@ -483,13 +650,16 @@ def run(ctx, V):
     samples.append(dict(case=jsonable(cases[0]), first_run_log=observed[0][0]["log"],
                         store_after_second_run={NAMES[n]: s for n, s in observed[0][1]["store"][1].items()}
                         if len(observed[0]) > 1 and 1 in observed[0][1]["store"] else None))
-    return dict(evaluations=len(cases), distinct_nontrivial=len(nontrivial),
+    house = run_house_part(ctx, V, wd)
+    return dict(evaluations=len(cases) + house["housekeeping_histories"], distinct_nontrivial=len(nontrivial), housekeeping=house,
                 rule="real PipelineManager.publish + refresh_impl on scratch work dirs: (a) one image with 0-5 files, with and "
                      "without index.wtml, every listing permutation x every fault point (before/during/after each put_item, "
                      "and none; in the quick tier 5-file listings get 4 random fault points per permutation), each followed by a fault-free re-run under a random second listing; (b) two consecutive faulted "
                      "runs + a fault-free one, exhaustive for 2 files (and 3 files in the thorough tier; sampled in quick); "
                      "(c) random histories of 1-4 runs over 1-3 images with up to 10 files and random outer orders; "
-                     "non-trivial = distinct scenario with at least one fault and an image of >= 2 files",
+                     "non-trivial = distinct scenario with at least one fault and an image of >= 2 files; "
+                     "(d) housekeeping: random histories of faulted publish runs and ignore-rejects calls over approved, rejected and "
+                     "merely known images (some flagged beforehand), the real ignore_rejects and refresh_impl compared with Model/Housekeeping.v after every step",
                 exhaustive=(tier == "thorough"), exhaustive_upto_files=(5 if tier == "thorough" else 4), exhaustive_single_run_cases=n_exh1 - 1, exhaustive_sequence_cases=n_exh - n_exh1,
                 implementation_matches=variant, disagreements_with_model_as_found=len(bad_found),
                 disagreements_with_repaired_model=len(bad_atomic), predicate_failures=n_pred_fail,
